@@ -353,9 +353,9 @@ PAIR_BOUND = 600      # rank of t1 & ~t2
 
 class Prop:
     ID = "C15"
-    LEVEL = "exploration"
-    COQ_HEADER = ""
-    CHECK_FN = ""
+    LEVEL = "proof"
+    COQ_HEADER = "From TN Require Import Harness.H_C15.\nOpen Scope Z_scope.\n"
+    CHECK_FN = "check"
     RULE = ("every Boolean function of N<=2 variables (quick; N<=3 thorough, seeded sample of N=3 (quick) and N=4) built "
             "through the API in 4 balanced syntactic styles (DNF, CNF, algebraic normal form, Shannon expansion), each "
             "without rounding (exact comparison) and with tn.round after every interior node (1e-6); every (which) "
@@ -373,7 +373,7 @@ class Prop:
                    "(the reading under which all four quantifier helpers treat `which` alike)",
                    "formulas are built only through the logic API, hence in TT format (Tucker factors appear only via tn.round)",
                    "N <= 4 symbols (helpers N <= 5); rounding uses the default eps=1e-14"]
-    THEOREMS = []
+    THEOREMS = ["C15_symbol", "C15_true", "C15_false", "C15_helpers", "C15_formula", "C15_is_contradiction", "C15_is_tautology", "C15_is_satisfiable", "C15_implies", "C15_equiv"]
 
     # ---------------------------------------------------------------- generation
     def generate(self, rng, tier):
@@ -660,4 +660,32 @@ class Prop:
         return "%d;%s;%s;%s" % (case["N"], json.dumps(case["f"]), json.dumps(case.get("g")), "+".join(case["obs"]))
 
     def coq_term(self, case, res):
-        return None
+        """unrounded formulas over symbols, constants, ~ & | ^ and the all/none/presence/absence/any helpers"""
+        if not res.get("ok") or "dense" not in res or "table" not in case.get("obs", []):
+            return None
+        N = case["N"]
+        if case.get("tags", {}).get("pred_rank", 0) > 40:
+            return None        # the functional model is evaluated entry by entry: keep it to moderate ranks
+        def wl(w):
+            if w is None:
+                return list(range(N))
+            return [int(w)] if isinstance(w, int) else [int(x) for x in w]
+        def tr(f):
+            op = f[0]
+            if op == "sym": return "(BSym %d)" % f[1]
+            if op == "true": return "BTrue"
+            if op == "false": return "BFalse"
+            if op == "not": return "(BNot %s)" % tr(f[1])
+            if op in ("and", "or", "xor"): return "(B%s %s %s)" % (op.capitalize(), tr(f[1]), tr(f[2]))
+            if op in ("all", "presence"): return "(BPresence %s)" % coq_natlist(wl(f[1]))
+            if op in ("none", "absence"): return "(BAbsence %s)" % coq_natlist(wl(f[1]))
+            if op == "any": return "(BNot (BAbsence %s))" % coq_natlist(wl(f[1]))
+            raise KeyError(op)
+        try:
+            t = tr(case["f"])
+        except (KeyError, IndexError, TypeError):
+            return None
+        dense = canon_dense(res["dense"])
+        if dense is None:
+            dense = [10 ** 9]
+        return "mkCase %d %s %s" % (N, t, coq_list(dense))
